@@ -63,6 +63,7 @@ FAMILIES = [
      lambda k: "#fn f() => asm { m }\n#ruledef\n{\n    m => f()\n}\nm\n"),
     ("rule-fn-cycle", -1, True, [1, 2], lambda k: "#fn f(x) => asm { m {x} }\n#ruledef\n{\n    m {x} => f(x)\n}\nm 1\n"),
     ("include-cycle", -1, True, [1, 2, 3, 4], None),
+    ("include-cycle-dir", -1, True, [1, 2, 3, 4], None),        # the same, the files of the cycle in a directory of their own
     # a rule with k comma-separated expression parameters, matched against k operands (F66: the time was exponential in k)
     ("rule-params", -1, False, "params",
      lambda k: "#ruledef\n{\n    go %s => %s\n}\ngo %s\n" % (", ".join("{p%d}" % i for i in range(k)), " @ ".join("p%d`8" % i for i in range(k)),
@@ -111,6 +112,11 @@ LIT_FAMILIES = [
     # magnitude = number of digits of a literal used as a width / type / count
     ("d-width-digits", lambda n: "#d%s 1\n" % ("9" * n)),
     ("type-width-digits", lambda n: "#ruledef\n{\n    t {x: u%s} => x\n}\nt 1\n" % ("9" * n)),
+    # the three integer types, the parameter used through a narrow slice (nothing else would notice its width):
+    # widths of 9 digits and more are beyond the supported size of an integer (8 * 10^8 bits)
+    ("type-width-digits-u", lambda n: "#ruledef\n{\n    t {x: u%s} => x`8\n}\nt 1\n" % ("9" * n)),
+    ("type-width-digits-s", lambda n: "#ruledef\n{\n    t {x: s%s} => x`8\n}\nt 1\n" % ("9" * n)),
+    ("type-width-digits-i", lambda n: "#ruledef\n{\n    t {x: i%s} => x`8\n}\nt 1\n" % ("9" * n)),
     ("literal-digits", lambda n: "x = %s\n" % ("9" * n)),
     ("hex-literal-digits", lambda n: "#d 0x%s\n" % ("f" * n)),
     ("iters-option", None),
@@ -166,7 +172,7 @@ def run_c19(ck):
     exe = common.build_binary()
     depths = [10, 45, 60, 300, 3000, 30000] if quick else [5, 10, 25, 45, 50, 51, 60, 100, 300, 1000, 3000, 10000, 30000, 100000]
     ks = [8, 31, 32, 33, 61, 63, 64, 65, 200] if quick else [1, 8, 16, 28, 29, 30, 31, 32, 33, 40, 60, 61, 62, 63, 64, 65, 100, 200, 1000]
-    digs = [3, 10, 19, 20, 21, 40, 400] if quick else [1, 3, 9, 10, 18, 19, 20, 21, 25, 40, 100, 400, 4000]
+    digs = [3, 8, 9, 10, 19, 20, 21, 40, 400] if quick else [1, 3, 8, 9, 10, 18, 19, 20, 21, 25, 40, 100, 400, 4000]
     plan = []      # (family, limit, cycle, mag, files, args)
     for name, limit, cycle, mags, gen in FAMILIES:
         if mags == "params":
@@ -177,6 +183,12 @@ def run_c19(ck):
                 files = {"main.asm": "#include \"f0.asm\"\n"}
                 for i in range(mm):
                     files["f%d.asm" % i] = ("#include \"f%d.asm\"\n" % (i + 1)) if i + 1 < mm else "#d8 1\n"
+                plan.append((name, limit, cycle, m, files, None))
+            elif name == "include-cycle-dir":
+                # (entered through a file that is not part of the cycle: no member is ever named with its directory)
+                files = {"main.asm": "#include \"sub/entry.asm\"\n", "sub/entry.asm": "#include \"f0.asm\"\n"}
+                for i in range(m):
+                    files["sub/f%d.asm" % i] = "#include \"f%d.asm\"\n" % ((i + 1) % m)
                 plan.append((name, limit, cycle, m, files, None))
             elif name == "include-cycle":
                 files = {"main.asm": "#include \"f0.asm\"\n"}
@@ -206,7 +218,8 @@ def run_c19(ck):
             if name == "iters-option":
                 plan.append((name, -1, False, n, {"main.asm": "#d8 1\n"}, ["--iters=" + "9" * n]))
             else:
-                plan.append((name, -1, False, n, {"main.asm": gen(n)}, None))
+                # (documented: an integer is at most 8 * 10^8 bits wide - a width of 9 nines is more)
+                plan.append((name, 8 if name.startswith("type-width-digits-") else -1, False, n, {"main.asm": gen(n)}, None))
     results = [None] * len(plan)
     base = os.path.join(ck.wd, "probe")
 
